@@ -118,8 +118,8 @@ theorem mir_subscriberStart (s : Stack) (hi : MirInv s) : MirInv s.subscriberSta
   · exact hi
   · rename_i ha
     have ha' : s.alive = false := by simpa using ha
-    have e : view { (({ s with alive := true, subLost := false } : Stack).createTask .subscribe).1 with
-          subTask := some (({ s with alive := true, subLost := false } : Stack).createTask .subscribe).2 } =
+    have e : view { (({ s with alive := true, subLost := false, subMarks := s.subMarks ++ [(none, s.loop.now)] } : Stack).createTask .subscribe).1 with
+          subTask := some (({ s with alive := true, subLost := false, subMarks := s.subMarks ++ [(none, s.loop.now)] } : Stack).createTask .subscribe).2 } =
         { view s with alive := true, lost := false, subTask := some (view s).tasks.length,
                       tasks := (view s).tasks ++ [((.subscribe, (view s).tasks.length), ({} : TaskSt))],
                       rdy := (view s).rdy ++ [.taskStep (.subscribe, (view s).tasks.length)] } := by
@@ -398,7 +398,7 @@ theorem mir_taskStep_sub (s0 : Stack) (n : Nat) (v : MV) (rest : List Cb) (hv : 
     | none => s0
     | some t =>
       if t.pc = .done then s0 else
-      let s := s0.cancelTimer isSleep t.sleep
+      let s := s0.cancelTimer (isSleepFor (.subscribe, n)) t.sleep
       let t := { t with sleep := none, waiting := false }
       match (TaskKind.subscribe, n).1 with
       | .offer i => s.stepOffer (.subscribe, n) t i
@@ -417,26 +417,27 @@ theorem mir_taskStep_sub (s0 : Stack) (n : Nat) (v : MV) (rest : List Cb) (hv : 
     · rw [if_pos hdone]
       apply hnoop; rintro ⟨_, t', h1, h2, _⟩; rw [ht] at h1; cases h1; rw [hdone] at h2; cases h2
     · rw [if_neg hdone]
-      have h1 : view (s0.cancelTimer isSleep t.sleep) = { v with rdy := rest } := by
-        rw [view_of_mpi (mpi_cancelTimer_sleep _ _)]; exact h0
-      have hse : (s0.cancelTimer isSleep t.sleep).subEntries = v.se := congrArg MV.se h1
-      have httl : (s0.cancelTimer isSleep t.sleep).tm.subscribeTtl = v.ttl := congrArg MV.ttl h1
-      generalize s0.cancelTimer isSleep t.sleep = s1 at h1 hse httl
+      have h1 : view (s0.cancelTimer (isSleepFor (.subscribe, n)) t.sleep) = { v with rdy := rest } := by
+        rw [view_of_mpi (mpi_cancelTimer_sleep _ _ _)]; exact h0
+      have hse : (s0.cancelTimer (isSleepFor (.subscribe, n)) t.sleep).subEntries = v.se := congrArg MV.se h1
+      have httl : (s0.cancelTimer (isSleepFor (.subscribe, n)) t.sleep).tm.subscribeTtl = v.ttl := congrArg MV.ttl h1
+      generalize s0.cancelTimer (isSleepFor (.subscribe, n)) t.sleep = s1 at h1 hse httl
       show MirInv (s1.stepSubscribe (.subscribe, n) { t with sleep := none, waiting := false })
       unfold stepSubscribe
       simp only []
       -- the round
       have hround : t.cancelled = false → MirInv
-          (match ((groupEntries s1.subEntries).foldl (fun s p => s.sendSubscribe s.tm.subscribeTtl p.1 p.2) s1).tm.subscribeRefresh with
-          | none => ((groupEntries s1.subEntries).foldl (fun s p => s.sendSubscribe s.tm.subscribeTtl p.1 p.2) s1).finish (.subscribe, n)
+          (match (((groupEntries s1.subEntries).foldl (fun s p => s.sendSubscribe s.tm.subscribeTtl p.1 p.2) s1).markRound n).tm.subscribeRefresh with
+          | none => (((groupEntries s1.subEntries).foldl (fun s p => s.sendSubscribe s.tm.subscribeTtl p.1 p.2) s1).markRound n).finish (.subscribe, n)
                       { t with sleep := none, waiting := false }
-          | some r => ((groupEntries s1.subEntries).foldl (fun s p => s.sendSubscribe s.tm.subscribeTtl p.1 p.2) s1).sleepFor (.subscribe, n)
+          | some r => (((groupEntries s1.subEntries).foldl (fun s p => s.sendSubscribe s.tm.subscribeTtl p.1 p.2) s1).markRound n).sleepFor (.subscribe, n)
                       { t with sleep := none, waiting := false } r .cyclic) := by
         intro hc
         rw [hse]
         have hv2 := view_round (groupEntries v.se) s1
         rw [h1, httl] at hv2
-        generalize (groupEntries v.se).foldl (fun s p => s.sendSubscribe s.tm.subscribeTtl p.1 p.2) s1 = s2 at hv2 ⊢
+        replace hv2 : view (((groupEntries v.se).foldl (fun s p => s.sendSubscribe s.tm.subscribeTtl p.1 p.2) s1).markRound n) = _ := hv2
+        generalize ((groupEntries v.se).foldl (fun s p => s.sendSubscribe s.tm.subscribeTtl p.1 p.2) s1).markRound n = s2 at hv2 ⊢
         split
         · unfold MirInv
           rw [view_finish_sub, hv2]
@@ -554,14 +555,14 @@ theorem mir_runCb_other (s : Stack) (cb : Cb) (hcb : isMirCb cb = false) (hi : M
       · exact hi
       · split
         · exact hi
-        · exact mir_frame ((mpi_stepOffer _ _ _ _ (by simp)).trans (mpi_cancelTimer_sleep _ _)) hi
+        · exact mir_frame ((mpi_stepOffer _ _ _ _ (by simp)).trans (mpi_cancelTimer_sleep _ _ _)) hi
     | find =>
       simp only [runCb]
       split
       · exact hi
       · split
         · exact hi
-        · exact mir_frame ((mpi_stepFind _ _ _ (by simp)).trans (mpi_cancelTimer_sleep _ _)) hi
+        · exact mir_frame ((mpi_stepFind _ _ _ (by simp)).trans (mpi_cancelTimer_sleep _ _ _)) hi
 
 theorem mpi_pop_other (s : Stack) (q : Option Nat) (cb : Cb) (rest : List (RItem Cb)) (hr : s.loop.ready = ⟨q, cb⟩ :: rest)
     (hcb : isMirCb cb = false) : mpi ({ s with loop := { s.loop with ready := rest } } : Stack) = mpi s := by
